@@ -103,6 +103,31 @@ func soloSchedule(rng *rand.Rand, cycles int) []strOp {
 	return ops
 }
 
+// loudSchedule: everything as loud as it gets - all four channels at volume 15 routed to both sides, master volumes 7
+// (with and without the Vin bits), square duties and frequencies equal so that the highs coincide, wave RAM all F,
+// retriggered now and then: the mix must still stay below 1.
+func loudSchedule(rng *rand.Rand, cycles int) []strOp {
+	ops := []strOp{{0, 0xff26, 0x80}, {0, 0xff24, []int{0x77, 0xf7, 0x7f, 0xff}[rng.Intn(4)]}, {0, 0xff25, 0xff}}
+	for i := 0; i < 16; i++ {
+		ops = append(ops, strOp{0, 0xff30 + i, 0xff})
+	}
+	t := 0
+	for t < cycles {
+		f := []int{0x700, 0x7c0, 0x400, rng.Intn(2048)}[rng.Intn(4)]
+		duty := rng.Intn(4) << 6
+		ops = append(ops,
+			strOp{t, 0xff10, 0x00}, strOp{t, 0xff11, duty}, strOp{t, 0xff12, 0xf0}, strOp{t, 0xff13, f & 0xff}, strOp{t, 0xff14, 0x80 | f>>8},
+			strOp{t, 0xff16, duty}, strOp{t, 0xff17, 0xf0}, strOp{t, 0xff18, f & 0xff}, strOp{t, 0xff19, 0x80 | f>>8},
+			strOp{t, 0xff1a, 0x80}, strOp{t, 0xff1c, 0x20}, strOp{t, 0xff1d, rng.Intn(256)}, strOp{t, 0xff1e, 0x80 | rng.Intn(8)},
+			strOp{t, 0xff21, 0xf0}, strOp{t, 0xff22, rng.Intn(4) << 4}, strOp{t, 0xff23, 0x80})
+		if rng.Intn(3) == 0 {
+			ops = append(ops, strOp{t, 0xff24, []int{0x77, 0xf7, 0x7f, 0xff}[rng.Intn(4)]})
+		}
+		t += 2000 + rng.Intn(20000)
+	}
+	return ops
+}
+
 // streamRun drives the audio unit with sample channels attached (or half attached) and logs every pair.
 func streamRun(id string, seed int64, cycles int, attached bool) *trace.Scenario {
 	rng := rand.New(rand.NewSource(seed))
@@ -118,6 +143,9 @@ func streamRun(id string, seed int64, cycles int, attached bool) *trace.Scenario
 		ops := streamSchedule(rng, cycles, -1)
 		if solo {
 			ops = soloSchedule(rng, cycles)
+		}
+		if len(id) > 4 && id[:4] == "loud" {
+			ops = loudSchedule(rng, cycles)
 		}
 		k := 0
 		for c := 1; c <= cycles; c++ {
@@ -314,6 +342,13 @@ func streamJobs(c *Ctx) []streamJob {
 	}
 	for i := 0; i < ns; i++ {
 		jobs = append(jobs, streamJob{fmt.Sprintf("solo-%d", i), "samples", rng.Int63n(1 << 40), 1 << 17, true})
+	}
+	nl := 3
+	if c.Thorough() {
+		nl = 20
+	}
+	for i := 0; i < nl; i++ {
+		jobs = append(jobs, streamJob{fmt.Sprintf("loud-%d", i), "samples", rng.Int63n(1 << 40), 1 << 17, true})
 	}
 	np, pc := 16, 1<<17
 	if c.Thorough() {
